@@ -123,3 +123,162 @@ Print Assumptions C11_big_counter_never_exhausts.
 Print Assumptions C11_no_keystream_reuse_bytes.
 Print Assumptions C11_no_keystream_reuse_block_input.
 Print Assumptions C11_no_keystream_reuse_distinct.
+
+(** ===== the REAL block producers (audit C11: "real instantiation missing from Props"):
+    closed instances for the model of the seven cipher types - [real_refill1/4 drounds] of
+    Model/ChaChaGuts.v, initial state [init_of v drounds key nonce]; the only hypotheses left are
+    byte-ness and lengths of key and nonce ([key_nonce_ok]).  [blk_of drounds s] = first
+    component of [refill s drounds]. VIetf = 12-byte nonce; VDjb / VX = 64-bit counter. ===== *)
+From CC Require Import Model.ChaChaStreamChk Proofs.ChaChaStreamReal Proofs.ChaChaStreamRealC11.
+
+Theorem C11_real_hypotheses_hold :
+  forall v drounds key nonce, key_nonce_ok v key nonce ->
+    producers_spec (real_refill1 drounds) (real_refill4 drounds) (blk_of drounds) (init_of v drounds key nonce)
+    /\ stream_init (is12_of v) (init_of v drounds key nonce).
+Proof. exact real_closed. Qed.
+
+Theorem C11_real_reachable_init :
+  forall drounds key nonce v, key_nonce_ok v key nonce ->
+    reachable (blk_of drounds) (is12_of v) (init_of v drounds key nonce) (m_new v drounds key nonce) 0.
+Proof. exact real_reachable_init. Qed.
+
+Theorem C11_real_reachable_step :
+  forall drounds key nonce v, key_nonce_ok v key nonce ->
+  forall b pos o, reachable (blk_of drounds) (is12_of v) (init_of v drounds key nonce) b pos -> op_ok o ->
+    reachable (blk_of drounds) (is12_of v) (init_of v drounds key nonce)
+      (fst (step (real_refill1 drounds) (real_refill4 drounds) (is12_of v) b o))
+      (fst (spec_step (blk_of drounds) (is12_of v) (init_of v drounds key nonce) pos o)).
+Proof. exact real_reachable_step. Qed.
+
+Theorem C11_real_ietf_apply_ok_iff :
+  forall drounds key nonce, key_nonce_ok VIetf key nonce ->
+  forall b pos data, reachable (blk_of drounds) true (init_of VIetf drounds key nonce) b pos ->
+    N.of_nat (length data) < 2 ^ 64 ->
+    (fst (fst (try_apply (real_refill1 drounds) (real_refill4 drounds) true b data)) = ROk
+       <-> pos + N.of_nat (length data) <= 2 ^ 38)
+    /\ fst (fst (try_apply (real_refill1 drounds) (real_refill4 drounds) true b data)) <> RPanic.
+Proof. exact real_ietf_apply_ok_iff. Qed.
+
+Theorem C11_real_apply_err_atomic :
+  forall drounds key nonce v, key_nonce_ok v key nonce ->
+  forall b pos data, reachable (blk_of drounds) (is12_of v) (init_of v drounds key nonce) b pos ->
+    N.of_nat (length data) < 2 ^ 64 ->
+    let r := try_apply (real_refill1 drounds) (real_refill4 drounds) (is12_of v) b data in
+    fst (fst r) <> ROk ->
+    fst (fst r) = RErr /\ snd r = data
+    /\ reachable (blk_of drounds) (is12_of v) (init_of v drounds key nonce) (snd (fst r)) pos.
+Proof. exact real_apply_err_atomic. Qed.
+
+Theorem C11_real_ietf_seek_ok_iff :
+  forall drounds key nonce, key_nonce_ok VIetf key nonce ->
+  forall b pos p, reachable (blk_of drounds) true (init_of VIetf drounds key nonce) b pos ->
+    (fst (try_seek true b p) = ROk <-> (0 <= p <= 2 ^ 38)%Z)
+    /\ fst (try_seek true b p) <> RPanic
+    /\ (fst (try_seek true b p) <> ROk -> snd (try_seek true b p) = b)
+    /\ (fst (try_seek true b p) = ROk ->
+        reachable (blk_of drounds) true (init_of VIetf drounds key nonce) (snd (try_seek true b p)) (Z.to_N p)).
+Proof. exact real_ietf_seek_ok_iff. Qed.
+
+Theorem C11_real_seek_ok_reachable :
+  forall drounds key nonce v, key_nonce_ok v key nonce ->
+  forall b pos p, reachable (blk_of drounds) (is12_of v) (init_of v drounds key nonce) b pos ->
+    seek_in_range (is12_of v) p ->
+    exists b', try_seek (is12_of v) b p = (ROk, b')
+               /\ reachable (blk_of drounds) (is12_of v) (init_of v drounds key nonce) b' (Z.to_N p).
+Proof. exact real_seek_ok_reachable. Qed.
+
+Theorem C11_real_seek_to_limit_then_apply0_ok :
+  forall drounds key nonce, key_nonce_ok VIetf key nonce ->
+  forall b pos x, reachable (blk_of drounds) true (init_of VIetf drounds key nonce) b pos ->
+    run (real_refill1 drounds) (real_refill4 drounds) true b
+        [OSeek (2 ^ 38); OApply []; OApply [x]; OApply []; OPos (2 ^ 64 - 1)]
+    = [ObsSeek ROk; ObsApply ROk []; ObsApply RErr [x]; ObsApply ROk []; ObsPos (Some (2 ^ 38)%Z)].
+Proof. exact real_seek_to_limit_then_apply0_ok. Qed.
+
+Theorem C11_real_big_apply_ok_iff :
+  forall drounds key nonce v, is12_of v = false -> key_nonce_ok v key nonce ->
+  forall b pos data, reachable (blk_of drounds) false (init_of v drounds key nonce) b pos ->
+    N.of_nat (length data) < 2 ^ 64 ->
+    (fst (fst (try_apply (real_refill1 drounds) (real_refill4 drounds) false b data)) = ROk
+       <-> pos + N.of_nat (length data) <= 2 ^ 70)
+    /\ fst (fst (try_apply (real_refill1 drounds) (real_refill4 drounds) false b data)) <> RPanic.
+Proof. exact real_big_apply_ok_iff. Qed.
+
+Theorem C11_real_big_counter_never_exhausts :
+  forall drounds key nonce v, is12_of v = false -> key_nonce_ok v key nonce ->
+  forall b pos data, reachable (blk_of drounds) false (init_of v drounds key nonce) b pos ->
+    N.of_nat (length data) < 2 ^ 64 -> pos + N.of_nat (length data) <= 2 ^ 64 ->
+    fst (fst (try_apply (real_refill1 drounds) (real_refill4 drounds) false b data)) = ROk.
+Proof. exact real_big_counter_never_exhausts. Qed.
+
+Theorem C11_real_no_keystream_reuse_bytes :
+  forall drounds key nonce v, key_nonce_ok v key nonce ->
+  forall b pos data i, reachable (blk_of drounds) (is12_of v) (init_of v drounds key nonce) b pos ->
+    N.of_nat (length data) < 2 ^ 64 ->
+    fst (fst (try_apply (real_refill1 drounds) (real_refill4 drounds) (is12_of v) b data)) = ROk ->
+    (i < length data)%nat ->
+    nth i (snd (try_apply (real_refill1 drounds) (real_refill4 drounds) (is12_of v) b data)) 0
+      = N.lxor (nth i data 0) (ks_byte (blk_of drounds) (is12_of v) (init_of v drounds key nonce) (pos + N.of_nat i))
+    /\ pos + N.of_nat i < stream_bytes (is12_of v).
+Proof. exact real_no_keystream_reuse_bytes. Qed.
+
+Theorem C11_real_no_keystream_reuse_block_input :
+  forall drounds key nonce v, key_nonce_ok v key nonce ->
+  forall k d0 d1 d2 d3, k < nblocks (is12_of v) -> cd (init_of v drounds key nonce) = [d0; d1; d2; d3] ->
+    kblock (blk_of drounds) (is12_of v) (init_of v drounds key nonce) k =
+      fst (refill (CC (cb (init_of v drounds key nonce)) (cc (init_of v drounds key nonce))
+                      (if is12_of v then [k; d1; d2; d3] else [k mod 2 ^ 32; k / 2 ^ 32; d2; d3])) drounds).
+Proof. exact real_no_keystream_reuse_block_input. Qed.
+
+Theorem C11_real_no_keystream_reuse_distinct :
+  forall drounds key nonce v, key_nonce_ok v key nonce ->
+  forall k k', k < nblocks (is12_of v) -> k' < nblocks (is12_of v) ->
+    stA (init_of v drounds key nonce) (ctr_base (is12_of v) (init_of v drounds key nonce) + k)
+    = stA (init_of v drounds key nonce) (ctr_base (is12_of v) (init_of v drounds key nonce) + k') -> k = k'.
+Proof. exact real_no_keystream_reuse_distinct. Qed.
+
+(** both build profiles (Model/ChaChaStreamChk.v, see Props/C02.v): on a reachable buffer the
+    profile-explicit call IS the call above, so exhaustion is the same atomic Err in debug and release *)
+Theorem C11_real_try_apply_profile_eq :
+  forall drounds key nonce prof v, key_nonce_ok v key nonce ->
+  forall b pos data, reachable (blk_of drounds) (is12_of v) (init_of v drounds key nonce) b pos ->
+    N.of_nat (length data) < 2 ^ 64 ->
+    try_apply_chk prof (real_refill1 drounds) (real_refill4 drounds) (is12_of v) b data
+    = try_apply (real_refill1 drounds) (real_refill4 drounds) (is12_of v) b data.
+Proof. exact real_try_apply_chk_eq. Qed.
+
+Theorem C11_real_ietf_apply_ok_iff_profile :
+  forall drounds key nonce prof, key_nonce_ok VIetf key nonce ->
+  forall b pos data, reachable (blk_of drounds) true (init_of VIetf drounds key nonce) b pos ->
+    N.of_nat (length data) < 2 ^ 64 ->
+    (fst (fst (try_apply_chk prof (real_refill1 drounds) (real_refill4 drounds) true b data)) = ROk
+       <-> pos + N.of_nat (length data) <= 2 ^ 38)
+    /\ fst (fst (try_apply_chk prof (real_refill1 drounds) (real_refill4 drounds) true b data)) <> RPanic.
+Proof. exact real_ietf_apply_ok_iff_profile. Qed.
+
+Theorem C11_real_apply_err_atomic_profile :
+  forall drounds key nonce prof v, key_nonce_ok v key nonce ->
+  forall b pos data, reachable (blk_of drounds) (is12_of v) (init_of v drounds key nonce) b pos ->
+    N.of_nat (length data) < 2 ^ 64 ->
+    let r := try_apply_chk prof (real_refill1 drounds) (real_refill4 drounds) (is12_of v) b data in
+    fst (fst r) <> ROk ->
+    fst (fst r) = RErr /\ snd r = data
+    /\ reachable (blk_of drounds) (is12_of v) (init_of v drounds key nonce) (snd (fst r)) pos.
+Proof. exact real_apply_err_atomic_profile. Qed.
+
+Print Assumptions C11_real_hypotheses_hold.
+Print Assumptions C11_real_reachable_init.
+Print Assumptions C11_real_reachable_step.
+Print Assumptions C11_real_ietf_apply_ok_iff.
+Print Assumptions C11_real_apply_err_atomic.
+Print Assumptions C11_real_ietf_seek_ok_iff.
+Print Assumptions C11_real_seek_ok_reachable.
+Print Assumptions C11_real_seek_to_limit_then_apply0_ok.
+Print Assumptions C11_real_big_apply_ok_iff.
+Print Assumptions C11_real_big_counter_never_exhausts.
+Print Assumptions C11_real_no_keystream_reuse_bytes.
+Print Assumptions C11_real_no_keystream_reuse_block_input.
+Print Assumptions C11_real_no_keystream_reuse_distinct.
+Print Assumptions C11_real_try_apply_profile_eq.
+Print Assumptions C11_real_ietf_apply_ok_iff_profile.
+Print Assumptions C11_real_apply_err_atomic_profile.
